@@ -26,7 +26,9 @@ H = {
     "k_band_accepts_open_interval": ("quick", 300, 600, "every f64 p inside (0,1) is accepted without panic", None),
     "k_band_monotone_in_t_f32": ("thorough", 0, 3000, "t1<=t2, sigma>=0 => t1*sigma <= t2*sigma in IEEE f32 (radius non-decreasing in the quantile)", None),
     "k_extract_concat_u32": ("quick", 300, 600, "statistics::extract_range returns [start,end) in order; concat_colwise pastes columns", None),
-    "k_fit_maps_termination": ("quick", 900, 2400, "real fit -> real LM: no cache => Err(User) carrying the problem; zero residuals => Ok(ResidualsZero); Ok <=> was_successful", None),
+    "k_fit_err_on_absent_cache": ("quick", 400, 900, "real fit -> real LM on a problem without cache (model failed to evaluate): Err(User) carrying the unchanged problem", None),
+    "k_fit_ok_on_zero_residuals": ("thorough", 0, 3000, "real fit -> real LM: zero residuals => Ok(ResidualsZero) with the coefficients", None),
+    "k_fit_maps_termination": ("thorough", 900, 3000, "real fit -> real LM: no cache => Err(User) carrying the problem; zero residuals => Ok(ResidualsZero); Ok <=> was_successful", None),
     "k_fit_err_on_failing_derivative": ("thorough", 900, 2400, "real fit -> real LM: failing derivative => None Jacobian => Err(User); residuals still those of the reported parameters", None),
     "k_set_params_fault_logic": ("quick", 600, 1500, "set_params from a filled cache with a rejecting model and/or failing eval: cache dropped, nothing exposed, SVD not even computed, params() = model's",
                                  [("core", dict(n=3, m=2, s=1, p=1, w="diag", hist=2))]),
@@ -40,11 +42,11 @@ H = {
 K_PROPS = {
     "C02": ["k_to_vector_u32"],
     "C03": ["k_copy_matrix_to_column"],
-    "C04": ["k_fit_maps_termination", "k_fit_err_on_failing_derivative"],
+    "C04": ["k_fit_err_on_absent_cache", "k_fit_ok_on_zero_residuals", "k_fit_maps_termination", "k_fit_err_on_failing_derivative"],
     "C06": ["k_weights_mul_probe_f32", "k_weights_mul_f32"],
     "C07": ["k_to_vector_u32"],
-    "C08": ["k_nonfinite_never_reaches_svd", "k_no_panic_downstream_of_svd", "k_fit_maps_termination", "k_band_rejects_bad_probability"],
-    "C09": ["k_set_params_fault_logic", "k_fit_maps_termination", "k_fit_err_on_failing_derivative", "k_update_fills_cache"],
+    "C08": ["k_nonfinite_never_reaches_svd", "k_no_panic_downstream_of_svd", "k_fit_err_on_absent_cache", "k_band_rejects_bad_probability"],
+    "C09": ["k_set_params_fault_logic", "k_fit_err_on_absent_cache", "k_fit_err_on_failing_derivative", "k_update_fills_cache"],
     "C10": ["k_model_eval_22", "k_copy_matrix_to_column", "k_model_eval_33"],
     "C11": ["k_into_sequential_preserves_state"],
     "C13": ["k_extract_concat_u32"],
@@ -149,6 +151,19 @@ def native_grid(prop, tier, seed):
                 for k in range(0, 26 if tier == "quick" else 60):
                     cases.append(("faultfit", dict(n=n, p=p, k=k, persistent=persistent)))
             cases.append(("faultfit", dict(n=n, p=p)))
+    if prop == "C04":
+        cases += [("fitmap", {}), ("fwsmap", {})]
+    if prop == "C12":
+        cases += [("fwsmap", {})]
+    if prop == "C18":
+        for have_y in (0, 1):
+            for x in range(0, 4):
+                for rows in range(0, 4):
+                    for cols in range(0, 3):
+                        for (wdiag, wlen) in [(0, 0)] + [(1, k) for k in range(0, 4)]:
+                            if tier == "quick" and (x + rows + cols + wlen + seed) % 3 != 0:
+                                continue
+                            cases.append(("buildcase", dict(have_y=have_y, x=x, rows=rows, cols=cols, wdiag=wdiag, wlen=wlen)))
     if not cases:
         return None
     h = engine_r.Harness(tag=f"grid-{prop}")
@@ -163,7 +178,7 @@ def native_grid(prop, tier, seed):
             bad = [("crash-or-hang", d.get("log", "")[-300:])] if d.get("crash") else [f for f in d["out"]["facts"] if not f[1]]
             if not d.get("crash"):
                 import engine_r as er
-                bad += er.numeric_failures(d, ["C09", "C08"])
+                bad += [b for b in er.numeric_failures(d, ["C09", "C08"]) if b[2] != "fact"]
             if not bad:
                 part["discharged"] += 1
                 if len(part["samples"]) < 3:
